@@ -1,4 +1,19 @@
 TEXTS = {
+    "C15": {
+        "text": "Machine-checked Lean 4 theorem C15_holds: for every wiring in which every strong handle kind "
+                "(Addr, OwningAddr, Sender, Caller) owns both halves of the channel, every run of the actor model "
+                "is accepted by monC15: while any strong handle exists, Context::stop/restart succeed, every weak "
+                "handle upgrades, weak_address() is Some and interval timers of the running incarnation do not end. "
+                "Which closures each kind owns is re-extracted from Addr's fields and the bodies of Sender::new / "
+                "Caller::new / from_weak_tx on every run and the instance lemma re-proved by `decide`; the negation "
+                "is proved for the Caller-holds-only-tx wiring by a concrete witness. The monitor-side handle table "
+                "is proved equal to the model's. interval_with timers (monC15iw) are judged on real traces only.",
+        "design_ref": "DESIGN.md §5 C15, §8 D2",
+        "note": "Partial: the interval_with clause and target preservation are trace-checked, not proved. Trusted: "
+                "Lean kernel + axioms propext/Classical.choice/Quot.sound; model of Arc ownership as handle table + "
+                "in-flight operations; translator's capture analysis of the constructor closures.",
+        "technique": "Lean 4 proof (handle-table refinement + ownership invariant) + regenerated wiring + checked trace correspondence",
+    },
     "C14": {
         "text": "Machine-checked Lean 4 theorem C14_holds: for every wiring whose liveness queries answer from the "
                 "latch itself and whose loop notifies after stopped(), every run of the actor model (all programs, "
@@ -34,6 +49,6 @@ TEXTS = {
 _PENDING = "check under construction in this round: model + theorem not yet wired into ./check (see DESIGN.md build order); not claimed until its three obligations run end to end"
 NOT_APPLICABLE = [
     {"property_id": p, "reason": _PENDING}
-    for p in ["C01", "C02", "C03", "C04", "C05", "C06", "C07", "C08", "C09", "C10", "C11", "C13", "C15",
+    for p in ["C01", "C02", "C03", "C04", "C05", "C06", "C07", "C08", "C09", "C10", "C11", "C13",
               "C16", "C17", "C18", "C19"]
 ]
